@@ -39,7 +39,7 @@ func (e *Enc) loopCandidates(f *Frame, li *loopInfo) []*Clause {
 		if pn == "" {
 			pn = p.Name()
 		}
-		srt := e.sortOf(p.Type())
+		srt := f.sortFor(p)
 		// entry value, when unique
 		var init ssa.Value
 		for j, pred := range h.Preds {
@@ -171,7 +171,7 @@ func (e *Enc) loopCandidates(f *Frame, li *loopInfo) []*Clause {
 		if !ok {
 			break
 		}
-		switch e.sortOf(phi.Type()) {
+		switch f.sortFor(phi) {
 		case SInt:
 			if b, ok := phi.Type().Underlying().(*types.Basic); ok && b.Info()&types.IsInteger != 0 && b.Kind() != types.Int32 {
 				intPhis = append(intPhis, phi)
@@ -216,7 +216,7 @@ func (e *Enc) loopCandidates(f *Frame, li *loopInfo) []*Clause {
 			}
 			_ = strict
 			phi, off := phiPlusConst(small, h)
-			if phi == nil || e.sortOf(phi.Type()) != SInt {
+			if phi == nil || f.sortFor(phi) != SInt {
 				continue
 			}
 			if !definedOutside(big, li) {
